@@ -317,7 +317,9 @@ def judge(run, cases, model, cres, exe, drv, limit):
             continue
         if c["loaded"]:
             if has_dup_indexes(m["objs"]):
-                run.bump("drift:duplicate-explicit-indexes-not-compared")
+                # the model accepted an index array with a duplicate: theorem synth_index_arrays_injective says impossible on the
+                # code as committed; seen only when a switch of the model is off
+                run.violation("index-array-not-injective", "an index attribute with duplicate values is used for PUs / NUMA nodes of %r" % desc[:100], replay_text(desc))
             else:
                 a, b = sorted(c["objs"]), sorted(m["objs"])
                 keys = [(kv["type"], kv["width"]) for kv in (dict(x.split("=", 1) for x in l.split()[2:] if "=" in x) for l in m["L"]) if 5 <= int(kv["type"]) <= 12]
@@ -410,6 +412,32 @@ def spec_interleaving(run, cases, cres):
         run.bump("spec:interleaving:" + ("ok" if bad is None else "MISMATCH"))
         if bad:
             run.violation("spec:interleaving-order", "type-based index interleaving of %r is not the documented one: %s" % (desc, bad), replay_text(desc, bad))
+
+
+def spec_distinct_indexes(run, cases, cres, exe):
+    """Independent of the model: the NUMA nodes of a loaded topology have distinct os_indexes, and a canonical
+    description loads exactly as many PUs as the product of its arities (a duplicate PU index merges two PUs)."""
+    for idx, (kind, d) in enumerate(cases):
+        c = cres.get(str(idx))
+        if not c or not c.get("loaded"):
+            continue
+        numa = [l.split()[1] for l in c["objs"] if l.startswith("M ")]
+        npu = sum(1 for l in c["objs"] if l.startswith("O 4 "))
+        bad = None
+        if len(set(numa)) != len(numa):
+            bad = "NUMA os_index values are not distinct: %s" % sorted(numa)[:12]
+        else:
+            stripped = re.sub(r"\[[^\[\]()]*\]", "", re.sub(r"\([^()\[\]]*\)", "", d))
+            items = stripped.split() if not re.search(r"[()\[\]]", stripped) and all(32 <= ord(ch) < 127 for ch in d) else []
+            if items and all(re.fullmatch(r"(?:[A-Za-z][A-Za-z0-9]*:)?[1-9]\d{0,3}", it) for it in items):
+                prod = 1
+                for it in items:
+                    prod *= int(it.split(":")[-1])
+                if prod != npu:
+                    bad = "%d PUs written (product of the arities), %d PU objects loaded" % (prod, npu)
+        run.bump("spec:distinct-indexes:" + ("ok" if bad is None else "MISMATCH"))
+        if bad:
+            run.violation("spec:os-index-duplicate", "%s for %r" % (bad, d[:100]), replay_text(d, bad))
 
 
 def spec_implicit_numa(run, cases, cres):
@@ -663,6 +691,7 @@ def check(run, replay=None):
     judge(run, cases, model, cres, exe, drv, limit)
     spec_interleaving(run, cases, cres)
     spec_implicit_numa(run, cases, cres)
+    spec_distinct_indexes(run, cases, cres, exe)
     filter_pass(run, cases, model, cres, exe)
     verbose_pass(run, cases, model, cres, exe)
     env_pass(run, cases, model, cres, exe)
